@@ -32,6 +32,8 @@ structure Conn where
   /-- history variable (not part of the implementation's state, never read by the model): every frame object that was
       serialised into `_data_to_send`, in order -/
   sent : List Frame := []
+  /-- `_preamble_sent`: initiate_connection has written the connection preamble -/
+  preambleSent : Bool := false
 deriving Repr, Inhabited
 
 abbrev CM := M Conn
@@ -197,11 +199,11 @@ def settingsFrameOfLocal : CM Frame := do
 def initiateConnection : CM Unit := do
   connInput .SEND_SETTINGS
   let c ← getS
-  let pre := if c.cfg.client then Gen.preamble else []
+  let pre := if c.cfg.client && !c.preambleSent then Gen.preamble else []
   let f ← settingsFrameOfLocal
   match f.serialize? with
   | none => raise (.py .StructError)
-  | some b => modifyS fun c => { c with out := c.out ++ pre ++ b, sent := c.sent ++ [f] }
+  | some b => modifyS fun c => { c with out := c.out ++ pre ++ b, sent := c.sent ++ [f], preambleSent := true }
 
 /-! #### base64 (urlsafe) for the h2c upgrade header -/
 
